@@ -8,6 +8,7 @@ import (
 	"reflect"
 	"runtime"
 	"strings"
+	"syscall"
 	"unsafe"
 )
 
@@ -194,4 +195,67 @@ func ImagePerms(lo, hi uintptr) map[string]int {
 		res[m.Perm]++
 	}
 	return res
+}
+
+// FuncName returns the runtime's name of the function containing pc.
+func FuncName(pc uintptr) string {
+	f := runtime.FuncForPC(pc)
+	if f == nil {
+		return ""
+	}
+	return f.Name()
+}
+
+// FuncExtentFast is FuncExtent with a galloping search for the end (the next entry).
+func FuncExtentFast(pc uintptr) (uintptr, uintptr) {
+	f := runtime.FuncForPC(pc)
+	if f == nil {
+		return 0, 0
+	}
+	entry := f.Entry()
+	same := func(a uintptr) bool {
+		g := runtime.FuncForPC(a)
+		return g != nil && g.Entry() == entry
+	}
+	step := uintptr(16)
+	lo := pc
+	hi := pc + step
+	for same(hi) {
+		lo = hi
+		step *= 2
+		hi = lo + step
+		if step > 1<<22 {
+			break
+		}
+	}
+	// invariant: same(lo), !same(hi)
+	for hi-lo > 1 {
+		mid := lo + (hi-lo)/2
+		if same(mid) {
+			lo = mid
+		} else {
+			hi = mid
+		}
+	}
+	return entry, hi
+}
+
+// ForceRestore writes the pristine bytes back over every differing range (own mprotect round
+// trip, independent of goom) and returns the ranges that had differed.
+func (im *Image) ForceRestore() []Range {
+	diff := im.Diff()
+	ps := uintptr(syscall.Getpagesize())
+	for _, d := range diff {
+		lo := d.Lo &^ (ps - 1)
+		hi := (d.Hi-1)&^(ps-1) + ps
+		b := rawBytes(lo, int(hi-lo))
+		if err := syscall.Mprotect(b, syscall.PROT_READ|syscall.PROT_WRITE|syscall.PROT_EXEC); err != nil {
+			Fatalf("ForceRestore mprotect: %v", err)
+		}
+		copy(rawBytes(d.Lo, int(d.Hi-d.Lo)), im.PristineAt(d.Lo, int(d.Hi-d.Lo)))
+		if err := syscall.Mprotect(b, syscall.PROT_READ|syscall.PROT_EXEC); err != nil {
+			Fatalf("ForceRestore mprotect: %v", err)
+		}
+	}
+	return diff
 }
